@@ -167,6 +167,10 @@ pub struct FaultCfg {
     pub enospc_pm: u32,
     pub eio_pm: u32,
     pub emfile_pm: u32,
+    /// EIO on fsync of the *directory* (lands right after a rename or an unlink: the commit point
+    /// has passed, only its durability is reported as failed)
+    #[serde(default)]
+    pub fsyncdir_eio_pm: u32,
     /// explicit faults: (ordinal, action) — used by replay / shrinking
     pub explicit: Vec<(u64, FaultAction)>,
     /// stop injecting error-class faults after this many fired
@@ -440,6 +444,22 @@ impl Recorder {
             name2: String::from_utf8_lossy(name2).into_owned(),
             ord,
         });
+    }
+    /// Extra roll for a directory fsync (see FaultCfg::fsyncdir_eio_pm).
+    fn decide_dirsync(&mut self) -> Option<FaultAction> {
+        if !self.faults_enabled || self.fault.fsyncdir_eio_pm == 0 || self.errors_fired >= self.fault.max_errors {
+            return None;
+        }
+        self.fault_state = self.fault_state.wrapping_add(0x9E37_79B9_7F4A_7C15);
+        let roll = (mix64(self.fault_state) % 1000) as u32;
+        if roll < self.fault.fsyncdir_eio_pm {
+            self.errors_fired += 1;
+            let ord = self.ord.saturating_sub(1);
+            self.fired.push(FiredFault { ord, class: SysClass::Fsync, action: FaultAction::Errno(libc::EIO), api: self.api });
+            Some(FaultAction::Errno(libc::EIO))
+        } else {
+            None
+        }
     }
     /// Decide a fault for the tracked syscall about to happen. Returns (ordinal, action).
     fn decide(&mut self, class: SysClass, len: u64) -> (u64, Option<FaultAction>) {
@@ -1020,7 +1040,10 @@ unsafe fn do_fsync(fd: c_int, nr: c_long) -> c_int {
     if t == 0 || !ACTIVE.load(Ordering::Acquire) || !enter() {
         return libc::syscall(nr, fd) as c_int;
     }
-    let (ord, act) = rec_do(|r| r.decide(SysClass::Fsync, 0)).unwrap_or((0, None));
+    let (ord, mut act) = rec_do(|r| r.decide(SysClass::Fsync, 0)).unwrap_or((0, None));
+    if act.is_none() && t == DIR_MARK {
+        act = rec_do(|r| r.decide_dirsync()).flatten();
+    }
     if let Some(FaultAction::Errno(e)) = act {
         set_errno(e);
         leave();
